@@ -237,6 +237,9 @@ def cell_mutations(old, r):
         yield 'content', ('date', old[1], old[2], 1 if old[3] != 1 else 2)
     elif k == 'time':
         yield 'content', ('time', old[1], (old[2] + 1) % 60, old[3], old[4])
+    elif k == 'dt' and old[3] is not None and old[3] in ('UTC', 'GMT'):
+        y, mo, d, h, mi, sec, us = old[1]
+        yield 'content', ('dt', (y, mo, d, (h + 1) % 24, mi, sec, us), old[2], old[3])
     elif k == 'xstr':
         # (b64: in front - text after the padding would be ignored by a decoder, which is no material difference)
         yield 'content', ('xstr', old[1], old[2] + '00' if old[1] == 'hex' else 'AAAA' + old[2] if old[1] == 'b64' else old[2] + 'x')
@@ -347,6 +350,29 @@ def run_shard(spec, ctx):
     else:
         r = random.Random(ctx.seed * 1000003 + 19 + spec['sub'])
         gen = D.Gen(r)
+        if spec['sub'] == 0:
+            # the repeated hour at the end of daylight saving: same zone, same wall clock, two instants an hour apart
+            folds = [('Paris', (2020, 10, 25, 2, 30, 0, 0), 7200, 3600), ('New_York', (2021, 11, 7, 1, 30, 0, 0), -14400, -18000),
+                     ('Sydney', (2021, 4, 4, 2, 30, 0, 0), 39600, 36000), ('London', (2020, 10, 25, 1, 15, 0, 0), 3600, 0),
+                     ('Lord_Howe', (2021, 4, 4, 1, 45, 0, 0), 39600, 37800)]
+            for zone, wall, off1, off2 in folds:
+                d1, d2 = ('dt', wall, off1, zone), ('dt', wall, off2, zone)
+                for ver in ('2.0', '3.0'):
+                    for pos in (D.POSITIONS_2 if ver == '2.0' else D.POSITIONS_3):
+                        try:
+                            g1, g2 = hs.to_grid(D.sentinel_grid(d1, pos, ver)), hs.to_grid(D.sentinel_grid(d2, pos, ver))
+                        except Exception:
+                            continue
+                        ctx.case('fold', zone, pos, ver)
+                        ctx.count('repeated-hour pairs compared')
+                        for direction, x, y in (('first==second', g1, g2), ('second==first', g2, g1)):
+                            eq, ne = outcome(lambda: x == y), outcome(lambda: x != y)
+                            if eq != ('value', False) or ne != ('value', True):
+                                ctx.violation({'part': 'law', 'kind': 'grid', 'symptom': 'law:grid-differs-but-equal',
+                                               'features': ['cell:content', 'kinds=dt~dt', 'repeated-hour']},
+                                              'grids differing only in a date-time of the repeated hour at the end of daylight saving (%s %r, offsets '
+                                              '%d and %d s: two instants) at %s: %s gives == %r, != %r' % (zone, wall, off1, off2, pos, direction, eq, ne),
+                                              {'grid': D.enc(D.sentinel_grid(d1, pos, ver)), 'mutation': 'fold:%d' % off2})
         for gi in range(spec['n']):
             ver = r.choice(['2.0', '3.0'])
             n = gen.grid(ver, maxcols=3, maxrows=3)
@@ -404,6 +430,8 @@ def grid_case(ctx, hs, n, r, only=None):
 
 def replay(case, ctx):
     from vf import hs
+    if str(case.get('mutation', '')).startswith('fold:'):
+        return run_shard({'part': 'grids', 'n': 0, 'sub': 0}, ctx)
     if 'grid' in case:
         grid_case(ctx, hs, D.dec(case['grid']), random.Random(0), only=case.get('mutation'))
         if case.get('mutation'):
